@@ -11,8 +11,9 @@ AVOID = {'int_ext_open',      # INTEGER (MIN..x, ...) -> TypeError in Integer.en
          'str_ext_outside',   # known-multiplier string length outside an extensible SIZE: silent corruption
          'bits_ext_outside',  # BIT STRING length outside an extensible SIZE: NotImplementedError
          'alpha1',            # single-character permitted alphabet: zero-bit characters decode to ''
-         'group_zero_width',  # addition group whose only content is zero-width: treated as absent
-         'size_ext_over_16k'}  # length outside an extensible SIZE and >= 16384: one fragment marker, then all the data
+         'group_zero_width'}  # addition group whose only content is zero-width: treated as absent
+# ('size_ext_over_16k' is no longer avoided: since the repair C01-per-size-extension-fragmentation a length
+#  outside an extensible SIZE is encoded with the fragmenting procedure, as the models do)
 
 OPTS = dict(avoid=AVOID, str_kinds=G.KM_KINDS + ['UTF8String'])
 
